@@ -517,10 +517,8 @@ def _eng_cases(rng, tier):
     for i in range(n):
         cfg = dict(rng.choice(_E.CFGS)); cfg["segments_per_merge"] = rng.choice([2, 3])
         evs, script = _E.gen_population(rng, rng.range(5, 40), rng.range(1, 5), rng.choice([3, 10, 1000]))
-        script.append(("quiesce",))
-        script.append(("cmd", "QUERY t"))     # the selection itself: pool for the reference sort
-        qs = []
         total = len(evs)
+        qs, qtexts = [], []
         for _ in range(6):
             desc = rng.chance(1, 2)
             n_ = rng.choice([0, 1, 2, 3, 5, total, total + 3, rng.below(total + 2)])
@@ -539,10 +537,39 @@ def _eng_cases(rng, tier):
             else:
                 thr = rng.below(10)
                 q = f"QUERY t WHERE k >= {thr} ORDER BY k{' DESC' if desc else ''} LIMIT {n_} OFFSET {m_}"; spec = ("ord", desc, n_, m_, thr)
-            qs.append(spec)
-            script.append(("cmd", q))
-        out.append({"kind": "engine", "line": "", "cfg": cfg, "script": [list(x) for x in script], "evs": evs, "qs": qs,
-                    "show": f"engine {cfg}: {total} events, " + "; ".join(x[1] for x in script[-6:])})
+            qs.append(spec); qtexts.append(q)
+        # run 1 on the generated (mixed) layout, run 2 once everything is in segments: the known class
+        # OrderedLimitWrongSlice is a defect of the top-k zone selection over FLUSHED data; a wrong slice that
+        # disappears after the flush is a different defect and is reported
+        script += [("quiesce",), ("cmd", "QUERY t")] + [("cmd", q) for q in qtexts]
+        script += [("cmd", "FLUSH"), ("quiesce",), ("cmd", "QUERY t")] + [("cmd", q) for q in qtexts]
+        out.append({"kind": "engine", "line": "", "cfg": cfg, "script": [list(x) for x in script], "evs": evs, "qs": qs, "qtexts": qtexts,
+                    "show": f"engine {cfg}: {total} events, " + "; ".join(qtexts)})
+    # targeted: every shard has flushed segments, then the smallest (largest) keys arrive for ONE context and stay
+    # unflushed: an ordered LIMIT must still take them from that shard's memory (no shard may be skipped)
+    for i in range(3 if tier == "quick" else 60):
+        cfg = dict(rng.choice([c for c in _E.CFGS if c["shards"] > 1])); cfg["segments_per_merge"] = 2
+        nctx = rng.range(4, 9)
+        script = [("cmd", f"DEFINE t FIELDS {_E.FIELDS}")]
+        evs = []
+        for cx in range(nctx):
+            for j in range(rng.range(2, 4)):
+                k = 100 + 10 * cx + j
+                script.append(("cmd", f'STORE t FOR c{cx} PAYLOAD {{"k": {k}, "g": "x"}}')); evs.append({"k": k})
+        script += [("cmd", "FLUSH"), ("quiesce",)]
+        low = rng.chance(1, 2)
+        hot = rng.below(nctx)
+        m = rng.range(1, 3)
+        for j in range(m):
+            k = (1 + j) if low else (900 + j)
+            script.append(("cmd", f'STORE t FOR c{hot} PAYLOAD {{"k": {k}, "g": "x"}}')); evs.append({"k": k})
+        qs, qtexts = [], []
+        for n_ in (1, m, m + 1):
+            qs.append(("ord", not low, n_, 0, None)); qtexts.append(f"QUERY t ORDER BY k{'' if low else ' DESC'} LIMIT {n_}")
+        script += [("quiesce",), ("cmd", "QUERY t")] + [("cmd", q) for q in qtexts]
+        script += [("cmd", "FLUSH"), ("quiesce",), ("cmd", "QUERY t")] + [("cmd", q) for q in qtexts]
+        out.append({"kind": "engine", "line": "", "cfg": cfg, "script": [list(x) for x in script], "evs": evs, "qs": qs, "qtexts": qtexts,
+                    "show": f"engine topk-unflushed-shard {cfg}: {len(evs)} events, " + "; ".join(qtexts)})
     return out
 
 
@@ -569,34 +596,55 @@ def same(c, impl, model):
     return True if c.get("kind") == "engine" else _F["same"](c, impl, model)
 
 
+def _judge_query(spec, r, sel):
+    kind, desc, n_, m_, thr = spec
+    if kind == "off":
+        return f"OFFSET {m_} without LIMIT was answered with status 200" if r["status"] == 200 else None
+    if r["status"] != 200:
+        return f"{spec}: status {r['status']} {r.get('message')}"
+    keys = [x["k"] for x in r["rows"]]
+    pool = sorted((k for k in sel if thr is None or k >= thr), reverse=bool(desc))
+    if kind == "ord":
+        exp = pool[m_:] if n_ is None else pool[m_:m_ + n_]
+        if keys != exp:
+            return f"ORDER BY k{' DESC' if desc else ''} LIMIT {n_} OFFSET {m_} WHERE>={thr}: returned keys {keys}, rows {m_}..{m_}+{n_} of the typed order are {exp}"
+    else:
+        want = min(n_, len(pool))
+        ids = [x["event_id"] for x in r["rows"]]
+        if len(keys) != want or len(set(ids)) != len(ids):
+            return f"LIMIT {n_}: returned {len(keys)} rows ({len(set(ids))} distinct), expected {want}"
+    return None
+
+
+def _eng_failures(c, impl):
+    """-> list of (run, j, why, keys) for every query whose answer is not the right slice"""
+    n = len(c["qs"])
+    res = impl["res"]
+    if "qtexts" not in c:                      # corpus cases of the first format: one run only
+        base_r = res[-n - 1]
+        if base_r["status"] != 200:
+            return []
+        sel = [x["k"] for x in base_r["rows"]]
+        return [(2, j, w, [x["k"] for x in r["rows"]]) for j, (spec, r) in enumerate(zip(c["qs"], res[-n:]))
+                for w in [_judge_query(tuple(spec), r, sel)] if w]
+    out = []
+    tail = res[-(2 * n + 4):]
+    for run, base_r, rs in ((1, tail[0], tail[1:1 + n]), (2, tail[n + 3], tail[n + 4:])):
+        if not base_r or base_r["status"] != 200:
+            continue
+        sel = [x["k"] for x in base_r["rows"]]
+        for j, (spec, r) in enumerate(zip(c["qs"], rs)):
+            w = _judge_query(tuple(spec), r, sel)
+            if w:
+                out.append((run, j, ("mixed layout: " if run == 1 else "all flushed: ") + w, [x["k"] for x in r["rows"]]))
+    return out
+
+
 def _eng_oracle(c, impl):
     if not impl.get("ok"):
         return "engine harness: " + str(impl.get("err"))
-    res = impl["res"][-len(c["qs"]):]
-    base_r = impl["res"][-len(c["qs"]) - 1]
-    if base_r["status"] != 200:
-        return None
-    sel = [x["k"] for x in base_r["rows"]]
-    for spec, r in zip(c["qs"], res):
-        kind, desc, n_, m_, thr = spec
-        if kind == "off":
-            if r["status"] == 200:
-                return f"OFFSET {m_} without LIMIT was answered with status 200"
-            continue
-        if r["status"] != 200:
-            return f"{spec}: status {r['status']} {r.get('message')}"
-        keys = [x["k"] for x in r["rows"]]
-        pool = sorted((k for k in sel if thr is None or k >= thr), reverse=bool(desc))
-        if kind == "ord":
-            exp = pool[m_:] if n_ is None else pool[m_:m_ + n_]
-            if keys != exp:
-                return f"ORDER BY k{' DESC' if desc else ''} LIMIT {n_} OFFSET {m_} WHERE>={thr}: returned keys {keys}, rows {m_}..{m_}+{n_} of the typed order are {exp}"
-        else:
-            want = min(n_, len(pool))
-            ids = [x["event_id"] for x in r["rows"]]
-            if len(keys) != want or len(set(ids)) != len(ids):
-                return f"LIMIT {n_}: returned {len(keys)} rows ({len(set(ids))} distinct), expected {want}"
-    return None
+    f = _eng_failures(c, impl)
+    return f[0][2] if f else None
 
 
 def oracle(c, impl):
@@ -605,14 +653,21 @@ def oracle(c, impl):
 
 def classify(c, impl):
     if c.get("kind") == "engine":
-        why = _eng_oracle(c, impl) or ""
-        m = re.search(r"ORDER BY .* LIMIT (\d+) OFFSET (\d+) .*returned keys (\[[^\]]*\])", why)
-        if m:
-            keys = json.loads(m.group(3))
-            # known class only when what came back is itself sorted and complete in size, i.e. a wrong SLICE
-            if keys == sorted(keys) or keys == sorted(keys, reverse=True):
-                return "OrderedLimitWrongSlice"
-        return None
+        if not impl.get("ok"):
+            return None
+        f = _eng_failures(c, impl)
+        if not f:
+            return None
+        flushed = {j: keys for (run, j, w, keys) in f if run == 2}
+        for (run, j, w, keys) in f:
+            if "ORDER BY" not in w:
+                return None
+            if not (keys == sorted(keys) or keys == sorted(keys, reverse=True)):
+                return None
+            # known only if the same query (also) returns a wrong slice once everything is flushed
+            if run == 1 and j not in flushed:
+                return None
+        return "OrderedLimitWrongSlice"
     return _F["classify"](c, impl)
 
 
